@@ -9,6 +9,7 @@ from ..facts import guards_of, returns_of, enclosing_loops
 from ..rules import matcher as M
 from ..rules.label import analyse as label_analyse
 from ..rules.select import selections
+from ..pattern import pmatch, pfind, pall
 
 AM = "synkit/Graph/Matcher/automorphism.py"
 AE = "synkit/Graph/Matcher/auto_est.py"
@@ -56,78 +57,127 @@ def exact(rep):
         and isinstance(em, ast.Call) and call_name(em) == "categorical_edge_match" and norm(em.args[0]) == "self._ekeys"
     rep.ob("O11.1", "R2", mk, ok, s.call, "node and edge labels are compared on the configured keys (label-preserving automorphisms)", node=s.call)
     ac = rep.f(AM, "Automorphism._analyze_component")
-    pm = parent_map(ac.node)
+    gp = ac.params[1]
+    adefs = local_defs(ac.node)
     loops = [l for l in walk_local(ac.node) if isinstance(l, ast.For) and isinstance(l.iter, ast.Call) and call_name(l.iter) in (M.ISO_METHODS | M.SUB_METHODS)]
     rep.need("R2", len(loops), 1, "enumeration loop in _analyze_component")
     lp = loops[0]
     rep.ob("O11.1", "R2", ac, call_name(lp.iter) == "isomorphisms_iter", lp.iter, "all isomorphisms of the graph onto itself are enumerated", node=lp)
-    gm = origin(local_defs(ac.node), lp.iter.func.value)
-    rep.ob("O11.1", "R2", ac, norm(gm) == "self._make_matcher(g)", gm, "the matcher is the self-matcher of this component")
-    inc = [n for n in lp.body if isinstance(n, ast.AugAssign) and isinstance(n.op, ast.Add) and is_const(n.value, 1)]
-    rep.ob("O11.1", "SHAPE", ac, len(inc) == 1, inc[0] if inc else "n_aut += 1", "every automorphism is counted (unconditionally)", node=lp)
+    gm = origin(adefs, lp.iter.func.value)
+    rep.ob("O11.1", "R2", ac, norm(gm) == f"self._make_matcher({gp})", gm, "the matcher is the self-matcher of this component")
+    inc = [(n, pmatch("$c += 1", n)) for n in lp.body if pmatch("$c += 1", n) is not None]
+    rep.ob("O11.1", "SHAPE", ac, len(inc) == 1, inc[0][0] if inc else "n_aut += 1", "every automorphism is counted (unconditionally)", node=lp)
+    counter = inc[0][1]["c"] if inc else None
     exits = [n for n in walk_local(lp) if isinstance(n, (ast.Break, ast.Continue, ast.Return))]
     rep.ob("O11.1", "SHAPE", ac, not exits, [type(e).__name__ for e in exits], "the enumeration is never cut short")
     inner = [l for l in walk_local(lp) if isinstance(l, ast.For) and l is not lp]
     ok = False
-    if inner and norm(inner[0].iter).replace(" ", "") == f"{norm(lp.target)}.items()":
+    store = None
+    if inner and pmatch(f"{norm(lp.target)}.items()", inner[0].iter) is not None and isinstance(inner[0].target, ast.Tuple) and len(inner[0].target.elts) == 2:
         u, v = [norm(e) for e in inner[0].target.elts]
-        adds = sorted(norm(c).replace(" ", "") for c in walk_local(inner[0]) if isinstance(c, ast.Call) and call_name(c) == "add")
-        ok = adds == sorted([f"orbit_sets[{u}].add({v})", f"orbit_sets[{v}].add({u})"])
+        b = pall(["$o[$u].add($v)", "$o[$v].add($u)"], inner[0], {"u": u, "v": v})
+        nadd = [c for c in walk_local(inner[0]) if isinstance(c, ast.Call) and call_name(c) == "add"]
+        ok = b is not None and len(nadd) == 2
+        store = b["o"] if b else None
     rep.ob("O11.1", "SHAPE", ac, ok, inner[0].iter if inner else "for u, v in auto.items()", "each node is joined with its image and vice versa (orbits = exchangeability classes)")
     rets = returns_of(ac.node)
     last = rets[-1].value if rets else None
-    ok = isinstance(last, ast.Tuple) and "unique_orbits" in norm(last.elts[0]) and norm(last.elts[1]).replace(" ", "") in ("n_autifn_aut>0else1", "n_aut")
+    ok = False
+    uo = None
+    if isinstance(last, ast.Tuple) and len(last.elts) == 2 and counter and store:
+        cnt_ok = norm(last.elts[1]) == counter or pmatch(f"{counter} if {counter} > 0 else 1", last.elts[1]) is not None
+        e0 = last.elts[0]
+        inner0 = e0.args[0] if isinstance(e0, ast.Call) and call_name(e0) in ("list", "sorted") and e0.args else e0
+        uo = origin(adefs, inner0)
+        ok = cnt_ok
     rep.ob("O11.1", "SHAPE", ac, ok, last if last is not None else "return", "the component's orbits and its automorphism count are returned")
-    uo = origin(local_defs(ac.node), ast.Name(id="unique_orbits", ctx=ast.Load()))
-    rep.ob("O11.1", "SHAPE", ac, norm(uo).replace(" ", "") == "{frozenset(nodes)fornodesinorbit_sets.values()}", uo, "orbits are the distinct exchange classes")
+    rep.ob("O11.1", "SHAPE", ac, uo is not None and store is not None and pmatch(f"{{frozenset($n) for $n in {store}.values()}}", uo) is not None,
+           uo if uo is not None else "unique orbits", "orbits are the distinct exchange classes")
     an = rep.f(AM, "Automorphism._analyze")
     pm = parent_map(an.node)
-    lp = [l for l in walk_local(an.node) if isinstance(l, ast.For) and norm(l.iter) == "comps"]
+    ndefs = local_defs(an.node)
+    comps = [nm_ for nm_, ds in ndefs.items() for d_ in ds if d_.kind == "assign" and norm(d_.value) == "self.components"]
+    rep.need("SHAPE", len(comps), 1, "comps = self.components in _analyze")
+    cv = comps[0]
+    lp = [l for l in walk_local(an.node) if isinstance(l, ast.For) and norm(l.iter) == cv]
     rep.need("SHAPE", len(lp), 1, "component loop in _analyze")
-    body = " ; ".join(norm(s_) for s_ in lp[0].body)
-    ok = "self._graph.subgraph(comp).copy()" in body and "self._analyze_component(sub)" in body and "all_orbits.extend(orbits)" in body and "total_aut *= int(n_aut)" in body
+    b = pall(["$sub = self._graph.subgraph($c).copy()", "$orb, $n = self._analyze_component($sub)", "$all.extend($orb)", "$tot *= int($n)"], lp[0], {"c": norm(lp[0].target)}) \
+        or pall(["$sub = self._graph.subgraph($c).copy()", "$orb, $n = self._analyze_component($sub)", "$all.extend($orb)", "$tot *= $n"], lp[0], {"c": norm(lp[0].target)})
+    ok = b is not None and not [n for n in walk_local(lp[0]) if isinstance(n, (ast.Break, ast.Continue, ast.Return))]
+    if ok:
+        # the product and the collected orbits are what is stored
+        st_n = [n for n in walk_local(an.node) if isinstance(n, ast.Assign) and norm(n.targets[0]) == "self._n_automorphisms" and n.lineno > lp[0].lineno]
+        st_o = [n for n in walk_local(an.node) if isinstance(n, ast.Assign) and norm(n.targets[0]) == "self._orbits" and n.lineno > lp[0].lineno]
+        ok = bool(st_n) and b["tot"] in {x.id for x in ast.walk(st_n[0].value) if isinstance(x, ast.Name)} and \
+            bool(st_o) and b["all"] in {x.id for x in ast.walk(st_o[0].value) if isinstance(x, ast.Name)} and \
+            any(d_.kind == "assign" and is_const(d_.value, 1) for d_ in ndefs.get(b["tot"], []))
     rep.ob("O11.1", "SHAPE", an, ok, lp[0].iter, "disconnected graphs: orbits are collected and automorphism counts multiplied per component (component swaps excluded)")
     single = [c for c in walk_local(an.node) if isinstance(c, ast.Call) and call_name(c) == "_analyze_component" and norm(c.args[0]) == "self._graph"]
-    gs = [norm(t).replace(" ", "") for c in single for t, s_ in guards_of(pm, c, an.node) if s_]
-    rep.ob("O11.1", "SHAPE", an, bool(single) and "len(comps)<=1" in gs, single[0] if single else "_analyze_component(self._graph)", "connected graphs are analysed as a whole")
+    gs = [t for c in single for t, s_ in guards_of(pm, c, an.node) if s_]
+    rep.ob("O11.1", "SHAPE", an, bool(single) and any(pmatch(f"len({cv}) <= 1", t) is not None for t in gs), single[0] if single else "_analyze_component(self._graph)", "connected graphs are analysed as a whole")
     cc = rep.f(AM, "Automorphism._compute_components")
-    txt = " ".join(norm(r.value) for r in returns_of(cc.node))
-    rep.ob("O11.1", "SHAPE", cc, "frozenset(c) for c in comps" in txt, txt[:60], "components are the connected components of the analysed graph")
+    rets = returns_of(cc.node)
+    ok = False
+    for r in rets:
+        m = pmatch("[frozenset($c) for $c in $comps]", r.value)
+        if m:
+            srcs = [norm(d_.value) for d_ in local_defs(cc.node).get(m["comps"], []) if d_.kind == "assign"]
+            ok = sorted(srcs) == ["nx.connected_components(self._graph)", "nx.weakly_connected_components(self._graph)"]
+    rep.ob("O11.1", "SHAPE", cc, ok, rets[-1] if rets else "return", "components are the connected components of the analysed graph")
 
 
 def estimate(rep):
     gnames = frozenset({"self._graph"})
-    for q, ids in (("AutoEst._initial_label", {"node"}), ("AutoEst._refined_label", {"node"}), ("AutoEst._neighbor_signature", {"node", "neighbor"})):
+    for q, npar in (("AutoEst._initial_label", 1), ("AutoEst._refined_label", 1), ("AutoEst._neighbor_signature", 2)):
         fi = rep.f(AE, q)
+        ids = set(fi.params[1:1 + npar])
         leaks, unordered, facts = label_analyse(fi, ids, set(), graph_names=gnames, safe_callees={"_neighbor_signature", "_initial_label", "_refined_label"})
         if not leaks and not unordered:
             rep.ob("O11.2", "R12", fi, True, q.split(".")[1], "the WL label uses node ids only as lookup keys and sorts per-neighbour data (the estimate never separates a true orbit)", facts, node=fi.node)
         for node, msg in leaks + unordered:
             rep.ob("O11.2", "R12", fi, False, node, msg, facts, node=node)
     rl = rep.f(AE, "AutoEst._refined_label")
-    srt = [c for c in walk_local(rl.node) if isinstance(c, ast.Call) and norm(c.func) in ("sigs.sort",)] + \
-          [c for c in walk_local(rl.node) if isinstance(c, ast.Call) and isinstance(c.func, ast.Name) and c.func.id == "sorted" and "sigs" in norm(c)]
-    rep.ob("O11.2", "R12", rl, bool(srt), srt[0] if srt else "sigs.sort()", "neighbour signatures form a multiset (sorted before use)")
+    node_p = rl.params[1]
     rets = returns_of(rl.node)
-    rep.ob("O11.2", "R12", rl, bool(rets) and norm(rets[-1].value) in ("(base, tuple(sigs))", "(base, tuple(sorted(sigs)))") and
-           norm(origin(local_defs(rl.node), ast.Name(id="base", ctx=ast.Load()))) == "self._colors[node]", rets[-1] if rets else "return",
-           "a refined label is (own colour, multiset of neighbour signatures)")
+    rdefs = local_defs(rl.node)
+    ok_sorted = ok_shape = False
+    construct = rets[-1] if rets else "return"
+    if rets:
+        m = pmatch("($base, tuple($sigs))", rets[-1].value) or pmatch("($base, tuple(sorted($sigs)))", rets[-1].value)
+        if m:
+            sg = m["sigs"]
+            in_place = pfind(f"{sg}.sort()", rl.node)
+            ok_sorted = bool(in_place) or pmatch("($base, tuple(sorted($sigs)))", rets[-1].value) is not None
+            fill = pall([f"for $n in self._graph.neighbors({node_p}):\n    {sg}.append(self._neighbor_signature({node_p}, $n))"], rl.node)
+            ok_shape = norm(origin(rdefs, ast.Name(id=m["base"], ctx=ast.Load()))) == f"self._colors[{node_p}]" and fill is not None
+    rep.ob("O11.2", "R12", rl, ok_sorted, "sigs.sort()" if ok_sorted else construct, "neighbour signatures form a multiset (sorted before use)")
+    rep.ob("O11.2", "R12", rl, ok_shape, construct, "a refined label is (own colour, multiset of neighbour signatures)")
     ns = rep.f(AE, "AutoEst._neighbor_signature")
     rets = returns_of(ns.node)
-    rep.ob("O11.2", "R12", ns, bool(rets) and norm(rets[-1].value) == "(self._colors[neighbor], *edge_vals)", rets[-1] if rets else "return",
-           "a neighbour contributes its colour and the selected bond attributes")
+    ok = False
+    if rets:
+        m = pmatch(f"(self._colors[{ns.params[2]}], *$ev)", rets[-1].value)
+        if m:
+            ev = origin(local_defs(ns.node), ast.Name(id=m["ev"], ctx=ast.Load()))
+            m2 = pmatch("[$ed.get($k) for $k in self._cfg.edge_attrs]", ev)
+            ok = m2 is not None and pmatch(f"self._graph.get_edge_data({ns.params[1]}, {ns.params[2]}, default={{}})", origin(local_defs(ns.node), ast.Name(id=m2["ed"], ctx=ast.Load()))) is not None
+    rep.ob("O11.2", "R12", ns, ok, rets[-1] if rets else "return", "a neighbour contributes its colour and the selected bond attributes")
     ro = rep.f(AE, "AutoEst._refine_once")
     lp = [l for l in walk_local(ro.node) if isinstance(l, ast.For)]
-    body = " ; ".join(norm(s_) for s_ in lp[0].body) if lp else ""
-    ok = len(lp) == 1 and norm(lp[0].iter) == "self._graph.nodes()" and "label = self._refined_label(node)" in body and "new_colors[node] = c" in body \
-        and "if label not in palette:" in body
+    ok = False
+    if len(lp) == 1 and norm(lp[0].iter) in ("self._graph.nodes()", "self._graph.nodes", "self._graph"):
+        nd = norm(lp[0].target)
+        b = pall([f"$label = self._refined_label({nd})", "if $label not in $pal:\n    $pal[$label] = $next\n    $next += 1", f"$c = $pal[$label]", f"$new[{nd}] = $c"], lp[0]) \
+            or pall([f"$label = self._refined_label({nd})", "if $label not in $pal:\n    $pal[$label] = $next\n    $next += 1", f"$new[{nd}] = $pal[$label]"], lp[0])
+        rr = returns_of(ro.node)
+        ok = b is not None and bool(rr) and isinstance(rr[-1].value, ast.Tuple) and norm(rr[-1].value.elts[0]) == b["new"]
     rep.ob("O11.2", "R12", ro, ok, lp[0].iter if lp else "for", "colours are assigned per distinct label: equal labels get equal colours in one sweep")
     bo = rep.f(AE, "AutoEst._build_orbits")
-    body = " ; ".join(norm(s_) for s_ in bo.node.body)
-    ok = "color_to_nodes.setdefault(color, []).append(node)" in body and "frozenset(v) for v in color_to_nodes.values()" in body
+    b = pall(["for $n, $c in self._colors.items():\n    $m.setdefault($c, []).append($n)", "$orbs = [frozenset($v) for $v in $m.values()]"], bo.node)
+    ok = b is not None and any(isinstance(n, ast.Assign) and norm(n.targets[0]) == "self._orbits" and b["orbs"] in {x.id for x in ast.walk(n.value) if isinstance(x, ast.Name)}
+                               for n in walk_local(bo.node))
     rep.ob("O11.2", "R12", bo, ok, "orbits = colour classes", "estimated orbits are exactly the final colour classes")
     ft = rep.f(AE, "AutoEst.fit")
-    calls = [call_name(c) for c in walk_local(ft.node) if isinstance(c, ast.Call) and call_name(c).startswith("_")]
     order = [c for c in sorted([(c.lineno, call_name(c)) for c in walk_local(ft.node) if isinstance(c, ast.Call) and call_name(c).startswith("_")])]
     rep.ob("O11.2", "R12", ft, [c for _, c in order] == ["_initialize_colors", "_refine_colors", "_build_orbits"], [c for _, c in order], "fit = initial colours, refinement, colour classes")
 
@@ -139,17 +189,27 @@ def dedup(rep):
     rep.need("R7", len(loops), 1, "scan loop in deduplicate_matches_with_anchor")
     lp = loops[0]
     m = norm(lp.target)
-    muts = [c for c in walk_local(fi.node) if isinstance(c, ast.Call) and isinstance(c.func, ast.Attribute) and norm(c.func.value) == "unique"
+    rets = returns_of(fi.node)
+    res = norm(rets[-1].value) if rets else None
+    muts = [c for c in walk_local(fi.node) if isinstance(c, ast.Call) and isinstance(c.func, ast.Attribute) and norm(c.func.value) == res
             and c.func.attr in ("append", "insert", "extend", "sort", "reverse", "pop", "remove")]
-    ok = len(muts) == 1 and muts[0].func.attr == "append" and norm(muts[0].args[0]) == m
+    rebinds = [d_ for d_ in local_defs(fi.node).get(res or "", []) if not (d_.kind == "assign" and isinstance(d_.value, ast.List) and not d_.value.elts)]
+    ok = len(muts) == 1 and muts[0].func.attr == "append" and norm(muts[0].args[0]) == m and not rebinds
     rep.ob("O11.3", "R7", fi, ok, [norm(c) for c in muts], "the result is built only by appending the scanned match itself (sub-list, original order, same objects)")
     conts = [n for n in walk_local(lp) if isinstance(n, (ast.Continue, ast.Break))]
-    ok = len(conts) == 1 and isinstance(conts[0], ast.Continue) and [(norm(t), s) for t, s in guards_of(pm, conts[0], lp)] == [("sig in seen", True)]
+    ok = False
+    seen = sig = None
+    if len(conts) == 1 and isinstance(conts[0], ast.Continue):
+        gs = guards_of(pm, conts[0], lp)
+        if len(gs) == 1 and gs[0][1]:
+            mm = pmatch("$sig in $seen", gs[0][0])
+            if mm:
+                seen, sig = mm["seen"], mm["sig"]
+                ok = True
     rep.ob("O11.3", "R7", fi, ok, [type(c).__name__ for c in conts], "a match is dropped only if an earlier match had the same signature (first occurrence kept)")
-    adds = [c for c in walk_local(lp) if isinstance(c, ast.Call) and norm(c.func) == "seen.add" and norm(c.args[0]) == "sig"]
+    adds = [c for c in walk_local(lp) if seen and isinstance(c, ast.Call) and pmatch(f"{seen}.add({sig})", c) is not None]
     rep.ob("O11.3", "R7", fi, len(adds) == 1, adds[0] if adds else "seen.add(sig)", "each kept signature is remembered")
-    rets = returns_of(fi.node)
-    ok = norm(rets[-1].value) == "unique" and any(norm(r.value) == f"list({fi.params[0]})" for r in rets[:-1])
+    ok = bool(rets) and isinstance(rets[-1].value, ast.Name) and any(norm(r.value) == f"list({fi.params[0]})" for r in rets[:-1])
     rep.ob("O11.3", "R7", fi, ok, [norm(r.value) for r in rets], "without orbit information the input is returned unchanged; otherwise the filtered list")
     # no re-ordering helpers on the matches themselves
     srt = [c for c in walk_local(fi.node) if isinstance(c, ast.Call) and isinstance(c.func, ast.Name) and c.func.id in ("sorted", "reversed") and fi.params[0] in norm(c)]
@@ -181,9 +241,17 @@ def consistency(rep):
     rep.ob("O11.4", "SRC", fi, bool(uses) and all(a < uses[0] for a in assigns), f"assignments at {assigns}, uses at {uses}", "the pattern graph is not re-bound between matching and pruning")
     dd = [c for c in walk_local(fi.node) if isinstance(c, ast.Call) and call_name(c) == "deduplicate_matches_with_anchor"]
     rep.need("SRC", len(dd), 2, "deduplicate calls in mappings")
+    fdefs = local_defs(fi.node)
     for c in dd:
-        ok = norm(c.args[0]) == "raw_maps" and norm(kwarg(c, "pattern_orbits") or ast.Constant(None)) == "auto.orbits" \
-            and norm(kwarg(c, "pattern_anchor") or ast.Constant(None)) == "auto.anchor_component"
+        ok = False
+        a0 = c.args[0] if c.args else None
+        po, pa = kwarg(c, "pattern_orbits"), kwarg(c, "pattern_anchor")
+        mo, ma = pmatch("$a.orbits", po), pmatch("$a.anchor_component", pa)
+        if isinstance(a0, ast.Name) and mo and ma and mo["a"] == ma["a"]:
+            raw_src = [call_name(d_.value) for d_ in fdefs.get(a0.id, []) if d_.kind == "assign" and isinstance(d_.value, ast.Call)]
+            an_src = [call_name(d_.value) for d_ in fdefs.get(mo["a"], []) if d_.kind == "assign" and isinstance(d_.value, ast.Call)]
+            ok = bool(raw_src) and set(raw_src) <= {"get_mappings", "find_subgraph_mappings"} and len(raw_src) == len(fdefs.get(a0.id, [])) \
+                and bool(an_src) and set(an_src) <= {"Automorphism", "AutoEst"} and len(an_src) == len(fdefs.get(mo["a"], []))
         rep.ob("O11.4", "SRC", fi, ok, c, "pruning receives the raw matches with the orbits and anchor of the same analysis object", node=c)
     srt = [c for c in walk_local(fi.node) if isinstance(c, ast.Call) and ((isinstance(c.func, ast.Name) and c.func.id == "sorted") or call_name(c) == "sort")]
     rep.ob("O11.4", "SRC", fi, not srt, srt[0] if srt else "no sort", "the list of matches is not re-sorted")
@@ -219,13 +287,13 @@ def anchor_selection(rep, oid):
     n = 0
     for rel, q in PATH:
         fi = rep.f(rel, q)
-        for node, kind, tie in selections(fi):
+        for node, kind, tie, txt in selections(fi):
             n += 1
             ok = tie == "total"
             what = {"id": "among equally large candidates the choice falls to the smallest node id: results depend on the numbering of the template",
                     "iteration-order": "ties fall to container iteration order (node insertion order): results depend on how the template is written",
                     "total": "the selection is decided by a numbering-independent key"}[tie]
-            rep.ob(oid, "R11", fi, ok, f"{kind}: {norm(node)[:90]}", what, {"tie_break": tie}, node=node)
+            rep.ob(oid, "R11", fi, ok, f"{kind}: {txt[:110]}", what, {"tie_break": tie}, node=node)
     rep.need("R11", n, 2, "selections on the pruning path")
 
 
